@@ -7,7 +7,9 @@ Line-protocol driver of C19 (cost level): the operator is given by its SHAPE tre
 `["tridiag", n]`, `["perm", n]`, `["house", n]`, `["T", e]`, `["prod", e…]`, `["sum", e…]`, `["kron", e…]`, `["kronsum", e…]`,
 `["bdiag", [e…], [mult…]]`, `["ann", e]`); payloads are irrelevant for `allocs`, `vol`, `dens`.
 
-Input  `{"id":…, "op": shape tree, "b": columns}`
+Input  `{"id":…, "op": shape tree, "b": columns}` or `{"id":…, "op": shape tree, "bs": [columns…]}` (round 3: one case per
+operator — `wf` of a Permutation / Sparse leaf is quadratic in its size and was recomputed for every `b`); with `bs` the answer
+carries `"per_b": [{"b":…, "allocs":[…], "peak":…}…]` and the top-level `allocs` / `peak` are those of the first `b`.
 Output `{"id":…, "rows":…, "cols":…, "vol":…, "leaf":…, "inScope":…, "wf":…, "square":…,
          "allocs":[…], "peak":…, "lvl":…, "factorDense":…, "linSize":…,
          "rules": {fn: {"has": bool, "deep": bool, "cost": ruleCost, "dens": [[rows, cols] …]}}}`
@@ -58,14 +60,19 @@ def fnName : Op.Fn → String
 def handle (j : Json) : E String := do
   let id := (j.getObjVal? "id").toOption.getD .null
   let A ← jShape ((j.getObjVal? "op").toOption.getD .null)
-  let b ← jNat ((j.getObjVal? "b").toOption.getD .null)
+  let bs ← match j.getObjVal? "bs" with
+    | .ok v => (← jArr v).toList.mapM jNat
+    | .error _ => do pure [← jNat ((j.getObjVal? "b").toOption.getD .null)]
+  let b := bs.headD 1
   let rules := Op.Fn.all.map fun f =>
     let ds := (Op.dens f A).map fun D => showNats [D.rows, D.cols]
     s!"\"{fnName f}\":\{\"has\":{showB (Op.hasRule f A)},\"deep\":{showB (Op.deepRule f A)},\"cost\":{Op.ruleCost f A},\"dens\":[{",".intercalate ds}]}"
+  let perB := bs.map fun k => s!"\{\"b\":{k},\"allocs\":{showNats (A.allocs k)},\"peak\":{A.peakMM k}}"
   return "{\"id\":" ++ id.compress ++
     s!",\"rows\":{A.rows},\"cols\":{A.cols},\"vol\":{A.vol},\"leaf\":{A.leafStorage}" ++
     s!",\"inScope\":{showB A.inScope},\"wf\":{showB A.wf},\"square\":{showB A.squareLeaves}" ++
     s!",\"allocs\":{showNats (A.allocs b)},\"peak\":{A.peakMM b},\"lvl\":{A.lvl}" ++
+    s!",\"per_b\":[{",".intercalate perB}]" ++
     s!",\"factorDense\":{A.factorDense},\"linSize\":{A.linSize},\"rules\":\{{",".intercalate rules}}}"
 
 def main : IO Unit := driverMain handle
